@@ -57,6 +57,10 @@ func ValidatePreparedProof(
 		return false
 	}
 
+	if ppBlockRef.MessageType() != protocol.LEAN_HELIX_PREPREPARE || pBlockRef.MessageType() != protocol.LEAN_HELIX_PREPARE {
+		return false
+	}
+
 	ppBlockHeight := ppBlockRef.BlockHeight()
 
 	if ppBlockHeight != targetHeight {
